@@ -877,6 +877,18 @@ func cdDec(tr *cdTrace, c *cdCase) {
 			return
 		}
 		data = data[:k]
+	case "cut":
+		// cut after k octets AND make the header's length field say so: the outer framing is
+		// consistent, the nested elements (RIB entries, the carried BGP message, per-peer header,
+		// TLVs) are what is cut short, at whatever octet k falls on
+		k, ok := cdPos(c.At, c.N, full, f.hdr)
+		if !ok || k < f.hdr || k < f.add {
+			row["skip"], row["why"] = true, "position outside the message or inside its header"
+			tr.Emit(row)
+			return
+		}
+		data = data[:k]
+		cdSetLen(f, data, uint64(k-f.add))
 	case "len":
 		v, ok := cdLenValue(c.At, f, full)
 		if !ok {
@@ -933,7 +945,12 @@ func cdDec(tr *cdTrace, c *cdCase) {
 	row["full"] = full
 	row["n"] = len(data)
 	row["hdr"] = f.hdr
-	row["bytes"] = cdInts(data)
+	if c.M == "none" {
+		row["bytes"] = cdInts(data)
+	} else {
+		// only the head (which holds every format's length field) is needed to judge a mutated input
+		row["bytes"] = cdInts(data[:min(len(data), 16)])
+	}
 	row["err"] = o.err != nil
 	row["errs"] = ""
 	if o.err != nil {
